@@ -11,10 +11,17 @@
   (`interchange_adjacent_reversible`) and under one of them restores the receiver field for field
   (`interchange_adjacent_undo`).  (After a longer move a single preference may route a box without
   inputs/outputs differently and be refused half way: no theorem, the check only counts it.)
+  Interchange is blind to WHAT sits in `boxes` (`interchange_box_blind`, Proofs/InterchangeBlind.lean):
+  it commutes with every relabelling of the boxes that keeps their domains and codomains, for all
+  diagrams (well-formed or not), all `(i, j)`, both preferences — so a composite diagram used as a
+  box, a formal sum, a bubble, a box of another class, a box with any name or data is moved or
+  refused exactly as the plain box of the same type, with the same error class
+  (`interchange_refusal_box_blind`).  (The TEXT of the error is outside the model: oracle only.)
 -/
 import Proofs.Move
 import Proofs.Foliate
 import Proofs.InterchangeBack
+import Proofs.InterchangeBlind
 
 namespace DV.C05
 open DV
@@ -107,6 +114,21 @@ theorem foliate_sound {O M : Type} (C : SMC O M) (F : MFunctor C) (d : Diagram)
     ∀ s ∈ steps, F.eval s = F.eval d :=
   fun s hs => ((Diagram.foliate_reach hd h).1 s hs).sound F hd
 
+/-- Interchange commutes with every relabelling `φ` of the boxes that keeps their domain and
+    codomain — whatever else `φ` does to kind, name, dagger flag and data; for ALL diagrams (no
+    well-formedness hypothesis), all `(i, j)` and both preferences. -/
+theorem interchange_box_blind (φ : Box → Box) (hφ : TypePreserving φ) (d : Diagram) (i j : Int)
+    (left : Bool) :
+    (d.mapBox φ).interchange i j left = mapOk (Diagram.mapBox φ) (d.interchange i j left) :=
+  Diagram.mapBox_interchange hφ d i j left
+
+/-- ... in particular the refusal and its class (interchanger / index) do not depend on what the
+    boxes are. -/
+theorem interchange_refusal_box_blind (φ : Box → Box) (hφ : TypePreserving φ) (d : Diagram)
+    (i j : Int) (left : Bool) (e : Err) :
+    (d.mapBox φ).interchange i j left = .error e ↔ d.interchange i j left = .error e :=
+  Diagram.interchange_error_blind hφ d i j left e
+
 /-! Non-vacuity -/
 private def x : Ob := ⟨"x", 0⟩
 private def y : Ob := ⟨"y", 0⟩
@@ -137,5 +159,15 @@ example : (((Expr.mk [x] [y] [u, e] [1, 0]).interchange 0 1 false).interchange 1
     = (Expr.mk [x] [y] [u, e] [1, 0]).eval := by decide
 example : okWith (((Expr.mk [x] [y] [u, e] [1, 0]).interchange 0 1 false).interchange 1 0 false).eval
     (fun d => d.boxes == [u, e] && d.offsets == [0, 1]) = true := by decide
+
+-- box-blindness: every box replaced by an opaque token of another kind with other name and data
+-- (what the check sends for a composite diagram sitting in `boxes`) is refused / moved alike
+private def asToken (b : Box) : Box := { b with kind := .swap, name := "~D:" ++ b.name, dagger := true, data := "?" }
+example : TypePreserving asToken := fun _ => ⟨rfl, rfl⟩
+example : ((Diagram.mk [x] [] [g, h] [0, 0] ⟨[x], [], [⟨[], g, []⟩, ⟨[], h, []⟩]⟩).mapBox asToken).interchange 0 1 true
+    = .error .interchanger := by decide
+example : okWith (((Diagram.mk [x, x] [y, y, y] [f, g] [0, 1]
+      ⟨[x, x], [y, y, y], [⟨[], f, [x]⟩, ⟨[y], g, []⟩]⟩).mapBox asToken).interchange 0 1 false)
+    (fun d => d.boxes == [asToken g, asToken f] && d.offsets == [1, 0]) = true := by decide
 
 end DV.C05
